@@ -67,6 +67,7 @@ func genQCfg(rc *RunCtx) QCfg {
 		c.YieldPrefixes = [][]string{{"nsqd.Channel."}, {"nsqd.protocolV2."}, {"nsqd.Topic.", "nsqd.NSQD."}, {"nsqd.Channel.", "nsqd.clientV2."}}[r.Intn(4)]
 	}
 	c.ShortReads = r.Pick(0, 0, 2, 8)
+	c.Topology = r.Chance(1, 6)
 	switch rc.Prop {
 	case "C04":
 		// timing checks want the scan to visit every channel and memory-held messages
